@@ -956,4 +956,84 @@ theorem play_metadata_in {c : Cli.State} {v v1 : Srv.State} {sid : Nat} {app key
   · rw [hv1]; exact hr.vapp
   · rw [hv1]; exact hr.vstream
 
+/-! ### the application may hold packets back -/
+
+/-- an emission can be cut at any packet boundary -/
+theorem Emits.split : ∀ (X1 X2 : List (Ser.Packet × Msg)) (a c : Ser.State), Emits a c (X1 ++ X2) →
+    ∃ b, Emits a b X1 ∧ Emits b c X2 := by
+  intro X1 X2 a c h
+  obtain ⟨ops, hw, ht, hr⟩ := h
+  induction ops generalizing a X1 with
+  | nil =>
+    simp only [trace] at ht
+    have h1 : X1 = [] := by cases X1 with | nil => rfl | cons x r => simp at ht
+    have h2 : X2 = [] := by cases X2 with | nil => rfl | cons x r => (subst h1; simp at ht)
+    subst h1; subst h2
+    exact ⟨a, Emits.nil _, ⟨[], trivial, rfl, hr⟩⟩
+  | cons op rest ih =>
+    cases X1 with
+    | nil => exact ⟨a, Emits.nil _, ⟨op :: rest, hw, by simpa using ht, hr⟩⟩
+    | cons x X1' =>
+      simp only [trace] at ht
+      cases hap : C19.applyOp a op with
+      | ok r =>
+        obtain ⟨s', p⟩ := r
+        simp only [hap, List.cons_append, List.cons.injEq] at ht
+        obtain ⟨hx, ht'⟩ := ht
+        obtain ⟨b, h1, h2⟩ := ih X1' (after a op) hw.2 ht' (by simpa [runAll] using hr)
+        refine ⟨b, ?_, h2⟩
+        obtain ⟨ops1, w1, t1, r1⟩ := h1
+        refine ⟨op :: ops1, ⟨hw.1, w1⟩, ?_, by simpa [runAll] using r1⟩
+        simp only [trace, hap, t1, hx]
+      | err e =>
+        simp only [hap] at ht
+        obtain ⟨b, h1, h2⟩ := ih (x :: X1') (after a op) hw.2 ht (by simpa [runAll] using hr)
+        refine ⟨b, ?_, h2⟩
+        obtain ⟨ops1, w1, t1, r1⟩ := h1
+        refine ⟨op :: ops1, ⟨hw.1, w1⟩, ?_, by simpa [runAll] using r1⟩
+        simp only [trace, hap, t1]
+      | hang =>
+        simp only [hap] at ht
+        obtain ⟨b, h1, h2⟩ := ih (x :: X1') (after a op) hw.2 ht (by simpa [runAll] using hr)
+        refine ⟨b, ?_, h2⟩
+        obtain ⟨ops1, w1, t1, r1⟩ := h1
+        refine ⟨op :: ops1, ⟨hw.1, w1⟩, ?_, by simpa [runAll] using r1⟩
+        simp only [trace, hap, t1]
+
+/-- **delivery of ANY prefix of what is pending** (the application may hold packets back): the invariant is kept,
+    with the rest still pending -/
+theorem srv_deliver_prefix {c : Cli.State} {v : Srv.State} {X1 X2 Y : List (Ser.Packet × Msg)} (now : Nat)
+    (h : InStepP c v (X1 ++ X2) Y) :
+    ∃ (A : Acks) (v1 : Srv.State) (since' : Nat), A.ok ∧ Emits v.ser v1.ser A.pairs ∧ v1 = { v with ser := v1.ser } ∧
+      ∀ sF rs Z, SrvSteps.steps { v1 with since := since' } now (msgs X1) = .ok (sF, rs) → Emits v1.ser sF.ser Z →
+        ∃ vN, Srv.handleInput v now (wire X1) = (vN, .ok (A.outS ++ rs)) ∧ vN = { sF with des := vN.des } ∧
+          InStepP c vN X2 (Y ++ A.pairs ++ Z) := by
+  obtain ⟨ser0, hl, he0⟩ := h.cs
+  obtain ⟨ser1, hl1, he1⟩ := h.sc
+  obtain ⟨b, heA, heB⟩ := Emits.split X1 X2 ser0 c.ser he0
+  obtain ⟨A, v1, since', hA, heAck, hv1, hrest⟩ := srv_hop now hl h.vpos heA
+  refine ⟨A, v1, since', hA, heAck, hv1, ?_⟩
+  intro sF rs Z hst heZ
+  obtain ⟨core', hd, hl'⟩ := hrest sF rs hst
+  refine ⟨_, hd, rfl, ⟨b, hl', heB⟩, ⟨ser1, hl1, ?_⟩⟩
+  rw [List.append_assoc]
+  exact he1.trans (heAck.trans heZ)
+
+theorem cli_deliver_prefix {c : Cli.State} {v : Srv.State} {X Y1 Y2 : List (Ser.Packet × Msg)} (now : Nat)
+    (h : InStepP c v X (Y1 ++ Y2)) :
+    ∃ (A : Acks) (c1 : Cli.State) (since' : Nat), A.ok ∧ Emits c.ser c1.ser A.pairs ∧ c1 = { c with ser := c1.ser } ∧
+      ∀ sF rs Z, CliSteps.steps { c1 with since := since' } now (msgs Y1) = .ok (sF, rs) → Emits c1.ser sF.ser Z →
+        ∃ cN, Cli.handleInput c now (wire Y1) = (cN, .ok (A.outC ++ rs)) ∧ cN = { sF with des := cN.des } ∧
+          InStepP cN v (X ++ A.pairs ++ Z) Y2 := by
+  obtain ⟨ser0, hl, he0⟩ := h.cs
+  obtain ⟨ser1, hl1, he1⟩ := h.sc
+  obtain ⟨b, heA, heB⟩ := Emits.split Y1 Y2 ser1 v.ser he1
+  obtain ⟨A, c1, since', hA, heAck, hc1, hrest⟩ := cli_hop now hl1 h.cpos heA
+  refine ⟨A, c1, since', hA, heAck, hc1, ?_⟩
+  intro sF rs Z hst heZ
+  obtain ⟨core', hd, hl'⟩ := hrest sF rs hst
+  refine ⟨_, hd, rfl, ⟨ser0, hl, ?_⟩, ⟨b, hl', heB⟩⟩
+  rw [List.append_assoc]
+  exact he0.trans (heAck.trans heZ)
+
 end Rml.AckFlow
